@@ -32,20 +32,17 @@
 #define VP_DIGITS 6
 #endif
 
-#define VP_EV_MAX 4
 #define VP_STR_MAX 48
 
-enum { VP_EV_WRITE = 1, VP_EV_RENAME = 2, VP_EV_REMOVE = 3 };
-
-static struct {
-  int kind;
-  char a[VP_STR_MAX];
-  char b[VP_STR_MAX];
-  size_t blen;
-  int sync;
-  int rc;
-} vp_ev[VP_EV_MAX];
-static int vp_nev = 0;
+/* one record per env call kind (each happens at most once); vp_seq orders them */
+static int vp_seq = 0;
+static int vp_w_n = 0, vp_w_at = -1, vp_w_sync, vp_w_rc;
+static char vp_w_name[VP_STR_MAX], vp_w_data[VP_STR_MAX];
+static size_t vp_w_len;
+static int vp_mv_n = 0, vp_mv_at = -1, vp_mv_rc;
+static char vp_mv_from[VP_STR_MAX], vp_mv_to[VP_STR_MAX];
+static int vp_rm_n = 0, vp_rm_at = -1, vp_rm_rc;
+static char vp_rm_name[VP_STR_MAX];
 
 static void
 vp_copy_str(char *dst, const char *src) {
@@ -70,37 +67,35 @@ vp_fail_code(void) {
 int
 ldb_write_file(const char *fname, const ldb_slice_t *data, int should_sync) {
   size_t i;
-  VP_ASSERT(vp_nev < VP_EV_MAX, "vp-model: event log large enough");
-  vp_ev[vp_nev].kind = VP_EV_WRITE;
-  vp_copy_str(vp_ev[vp_nev].a, fname);
+  vp_w_n++;
+  vp_w_at = vp_seq++;
+  vp_copy_str(vp_w_name, fname);
   VP_ASSERT(data->size < VP_STR_MAX, "vp-model: recorded data fits");
-  for (i = 0; i < VP_STR_MAX; i++) {
-    if (i < data->size)
-      vp_ev[vp_nev].b[i] = (char)data->data[i];
-  }
-  vp_ev[vp_nev].blen = data->size;
-  vp_ev[vp_nev].sync = should_sync;
-  vp_ev[vp_nev].rc = vp_fail_code();
-  return vp_ev[vp_nev++].rc;
+  for (i = 0; i + 1 < VP_STR_MAX; i++)
+    vp_w_data[i] = i < data->size ? (char)data->data[i] : 0;
+  vp_w_len = data->size;
+  vp_w_sync = should_sync;
+  vp_w_rc = vp_fail_code();
+  return vp_w_rc;
 }
 
 int
 ldb_rename_file(const char *from, const char *to) {
-  VP_ASSERT(vp_nev < VP_EV_MAX, "vp-model: event log large enough");
-  vp_ev[vp_nev].kind = VP_EV_RENAME;
-  vp_copy_str(vp_ev[vp_nev].a, from);
-  vp_copy_str(vp_ev[vp_nev].b, to);
-  vp_ev[vp_nev].rc = vp_fail_code();
-  return vp_ev[vp_nev++].rc;
+  vp_mv_n++;
+  vp_mv_at = vp_seq++;
+  vp_copy_str(vp_mv_from, from);
+  vp_copy_str(vp_mv_to, to);
+  vp_mv_rc = vp_fail_code();
+  return vp_mv_rc;
 }
 
 int
 ldb_remove_file(const char *fname) {
-  VP_ASSERT(vp_nev < VP_EV_MAX, "vp-model: event log large enough");
-  vp_ev[vp_nev].kind = VP_EV_REMOVE;
-  vp_copy_str(vp_ev[vp_nev].a, fname);
-  vp_ev[vp_nev].rc = vp_fail_code();
-  return vp_ev[vp_nev++].rc;
+  vp_rm_n++;
+  vp_rm_at = vp_seq++;
+  vp_copy_str(vp_rm_name, fname);
+  vp_rm_rc = vp_fail_code();
+  return vp_rm_rc;
 }
 
 /* reference: decimal, zero padded to at least 6 digits */
@@ -219,43 +214,35 @@ harness(void) {
   n = ref_append(want_data, n, digits);
   n = ref_append(want_data, n, "\n");
 
-  VP_ASSERT(vp_nev >= 1, "an env call is made");
-  VP_ASSERT(vp_ev[0].kind == VP_EV_WRITE, "first env call writes the temp file");
-  VP_ASSERT(ref_str_equal(vp_ev[0].a, want_tmp), "temp file name == <db>/<number>.dbtmp");
-  VP_ASSERT(vp_ev[0].blen == n, "CURRENT content length == reference");
-  vp_ev[0].b[vp_ev[0].blen < VP_STR_MAX ? vp_ev[0].blen : VP_STR_MAX - 1] = 0;
-  VP_ASSERT(ref_str_equal(vp_ev[0].b, want_data), "CURRENT content == MANIFEST-<number, 6 digits> newline");
-  VP_ASSERT(vp_ev[0].sync == 1, "temp file is written with should_sync = 1");
+  VP_ASSERT(vp_w_n == 1 && vp_w_at == 0, "the first env call writes a file, and only one file is written");
+  VP_ASSERT(ref_str_equal(vp_w_name, want_tmp), "the written file is the temp file <db>/<number>.dbtmp");
+  VP_ASSERT(!ref_str_equal(vp_w_name, want_cur), "CURRENT is never written directly");
+  VP_ASSERT(vp_w_len == n, "CURRENT content length == reference");
+  VP_ASSERT(ref_str_equal(vp_w_data, want_data), "CURRENT content == MANIFEST-<number, 6 digits> newline");
+  VP_ASSERT(vp_w_sync == 1, "temp file is written with should_sync = 1");
+  VP_ASSERT(vp_mv_n <= 1 && vp_rm_n <= 1, "at most one rename and one remove");
 
-  for (i = 0; i < VP_EV_MAX; i++) {
-    if (i < vp_nev) {
-      if (vp_ev[i].kind == VP_EV_WRITE) {
-        VP_ASSERT(i == 0, "only one file is written");
-        VP_ASSERT(!ref_str_equal(vp_ev[i].a, want_cur), "CURRENT is never written directly");
-      }
-      if (vp_ev[i].kind == VP_EV_REMOVE)
-        VP_ASSERT(ref_str_equal(vp_ev[i].a, want_tmp), "only the temp file is ever removed");
-      if (vp_ev[i].kind == VP_EV_RENAME) {
-        VP_ASSERT(i == 1 && vp_ev[0].rc == LDB_OK, "rename only directly after the successful synced write");
-        VP_ASSERT(ref_str_equal(vp_ev[i].a, want_tmp) && ref_str_equal(vp_ev[i].b, want_cur),
-                  "rename temp -> CURRENT");
-      }
-    }
+  if (vp_mv_n) {
+    VP_ASSERT(vp_w_rc == LDB_OK && vp_mv_at == 1, "rename only directly after the successful synced write");
+    VP_ASSERT(ref_str_equal(vp_mv_from, want_tmp) && ref_str_equal(vp_mv_to, want_cur), "rename temp -> CURRENT");
   }
+  if (vp_rm_n)
+    VP_ASSERT(ref_str_equal(vp_rm_name, want_tmp), "only the temp file is ever removed");
 
-  if (vp_ev[0].rc != LDB_OK) {
-    VP_ASSERT(rc == vp_ev[0].rc, "write failure is returned");
-    VP_ASSERT(vp_nev == 2 && vp_ev[1].kind == VP_EV_REMOVE, "failed write: temp removed, nothing else");
+  if (vp_w_rc != LDB_OK) {
+    VP_ASSERT(rc == vp_w_rc, "write failure is returned");
+    VP_ASSERT(vp_mv_n == 0, "no rename after a failed write");
+    VP_ASSERT(vp_rm_n == 1 && vp_rm_at == 1, "failed write: temp removed");
     VP_WITNESS("write-failed");
   } else {
-    VP_ASSERT(vp_nev >= 2 && vp_ev[1].kind == VP_EV_RENAME, "successful write is followed by the rename");
-    if (vp_ev[1].rc != LDB_OK) {
-      VP_ASSERT(rc == vp_ev[1].rc, "rename failure is returned");
-      VP_ASSERT(vp_nev == 3 && vp_ev[2].kind == VP_EV_REMOVE, "failed rename: temp removed");
+    VP_ASSERT(vp_mv_n == 1, "successful write is followed by the rename");
+    if (vp_mv_rc != LDB_OK) {
+      VP_ASSERT(rc == vp_mv_rc, "rename failure is returned");
+      VP_ASSERT(vp_rm_n == 1 && vp_rm_at == 2, "failed rename: temp removed");
       VP_WITNESS("rename-failed");
     } else {
       VP_ASSERT(rc == LDB_OK, "success returns LDB_OK");
-      VP_ASSERT(vp_nev == 2, "success: write and rename only");
+      VP_ASSERT(vp_rm_n == 0, "success: nothing is removed");
       VP_WITNESS("switched");
     }
   }
